@@ -82,8 +82,10 @@ class Indentation(afmformats.AFMForceDistance):
             # Reset fit properties
             fp.reset()
             # Set preprocessing options
-            fp["preprocessing"] = preprocessing
-            fp["preprocessing_options"] = options
+            # (store copies, so that later in-place edits of the caller's
+            # objects are noticed by the comparison above)
+            fp["preprocessing"] = list(preprocessing)
+            fp["preprocessing_options"] = copy.deepcopy(options)
             # Reset rating
             self._rating = None
             # Apply preprocessing
@@ -100,7 +102,7 @@ class Indentation(afmformats.AFMForceDistance):
                     fp.pop(ax)
 
         # remember preprocessing
-        self.preprocessing = preprocessing
+        self.preprocessing = list(preprocessing)
         self.preprocessing_options = copy.deepcopy(options)
 
         return self._preprocessing_details
@@ -225,8 +227,10 @@ class Indentation(afmformats.AFMForceDistance):
         # lines will reset the "hash" in the fit properties, triggering
         # a new fit.
         # (sorted, such that `model_key` is set before `params_initial`)
+        # (copies are stored, so that in-place edits of the caller's objects
+        # are detected the next time they are passed)
         for arg in sorted(kwargs.keys()):
-            self.fit_properties[arg] = kwargs[arg]
+            self.fit_properties[arg] = copy.deepcopy(kwargs[arg])
 
         # set a default model (needed for self.get_initial_fit_parameters)
         if "model_key" not in self.fit_properties:
@@ -294,7 +298,7 @@ class Indentation(afmformats.AFMForceDistance):
         if model_key is not None:
             self.fit_properties["model_key"] = model_key
         if self.fit_properties.get("params_initial", False):
-            parms = self.fit_properties["params_initial"]
+            parms = copy.deepcopy(self.fit_properties["params_initial"])
         elif "model_key" in self.fit_properties:
             parms = guess_initial_parameters(
                 self,
